@@ -195,7 +195,7 @@ def in_loop(r):
     return False
 
 
-def prove(facts, goal, max_cases=None, _lazy=False):
+def prove(facts, goal, max_cases=None, _lazy=False, _depth=0):
     """entailment with slice-length axioms and relevance filtering.
     -> ('proved'|'refutable'|'unknown', model-or-reason)"""
     if max_cases is not None:
@@ -203,12 +203,37 @@ def prove(facts, goal, max_cases=None, _lazy=False):
         old = _lin.MAX_CASES
         _lin.MAX_CASES = max_cases
         try:
-            return prove(facts, goal, _lazy=_lazy)
+            return prove(facts, goal, _lazy=_lazy, _depth=_depth)
         finally:
             _lin.MAX_CASES = old
     facts = [truthy(f) for f in facts]
     if contradictory(facts):
         return "proved", None
+    if _depth < 5:
+        # case split on a gated sub-term of the goal: under its condition the gate is its first alternative,
+        # under the negation its second (also inside the facts); removes opaque gamma atoms from the linear problem
+        gm = None
+        for s_ in subterms(goal):
+            if s_.k == "gamma" and s_ is not goal:
+                gm = s_
+                break
+        if gm is not None:
+            from .terms import substitute
+            res = []
+            for cond, alt in ((gm.a[0], gm.a[1]), (un("not", gm.a[0]), gm.a[2])):
+                m_ = {gm: alt}
+                f2 = [truthy(substitute(f, m_)) if any(x is gm or x == gm for x in subterms(f)) else f for f in facts] + [truthy(cond)]
+                if any(f.k == "const" and not f.a[0] for f in f2):
+                    res.append(("proved", None))
+                    continue
+                f2 = [f for f in f2 if f.k != "const"]
+                res.append(prove(f2, substitute(goal, m_), _lazy=False, _depth=_depth + 1))
+            if all(r[0] == "proved" for r in res):
+                return "proved", None
+            for r in res:
+                if r[0] == "refutable":
+                    return r
+            return [r for r in res if r[0] != "proved"][0]
     if not _IN_SIMPLIFY[0] and not _lazy and (_needs_simplify(goal) or any(_needs_simplify(f) for f in facts)):
         # first try with the goal normalised only; normalise the facts as well only if that does not prove it
         cache = {}
@@ -219,7 +244,7 @@ def prove(facts, goal, max_cases=None, _lazy=False):
             _IN_SIMPLIFY[0] -= 1
         if g2.k == "const":
             return ("proved", None) if g2.a[0] else ("unknown", "goal simplifies to False")
-        st, m = prove(facts, g2, _lazy=True)
+        st, m = prove(facts, g2, _lazy=True, _depth=9)
         if st == "proved" or not any(_needs_simplify(f) for f in facts):
             return st, m
         _IN_SIMPLIFY[0] += 1
@@ -235,7 +260,7 @@ def prove(facts, goal, max_cases=None, _lazy=False):
                 f2.append(f)
         finally:
             _IN_SIMPLIFY[0] -= 1
-        return prove(f2, g2, _lazy=True)
+        return prove(f2, g2, _lazy=True, _depth=9)
     rel = relevant(facts, goal)
     ax = [slice_axiom(s) for s in _slice_len_atoms(rel + [goal])]
     # axioms may connect further facts
@@ -249,6 +274,10 @@ def prove(facts, goal, max_cases=None, _lazy=False):
             return st2, m2
         if st2 == "refutable":
             m = m2
+    if st == "refutable" and any(s_.k == "sym" and isinstance(s_.a[0], str) and s_.a[0].startswith(("loop(", "after(", "elem(", "try(", "pop", "caught"))
+                                for t_ in [goal] + list(rel2) for s_ in subterms(t_)):
+        # a summarised loop variable is not an input: no witness can be built from it
+        return "unknown", "counter-model involves a summarised loop variable (no inductive invariant inferred)"
     if st == "refutable":
         # a REFUTED verdict needs a concrete input: every evaluable fact true, goal false
         env = realise(facts, goal, m)
@@ -344,6 +373,25 @@ def xbuf_goal(r):
     return None
 
 
+PROOF_BUDGET_S = 6.0
+
+
+def budgeted_prove(facts, goal, max_cases=None):
+    """prove() under a wall-clock budget; -> ('budget', reason) when exceeded"""
+    import time as _t
+    from . import linear as _lin
+    from .linear import ProofBudgetExceeded
+    old = _lin.DEADLINE[0]
+    _lin.DEADLINE[0] = _t.time() + PROOF_BUDGET_S
+    try:
+        return prove(facts, goal, max_cases=max_cases)
+    except ProofBudgetExceeded:
+        _IN_SIMPLIFY[0] = 0
+        return "budget", f"proof search exceeded {PROOF_BUDGET_S:.0f} s"
+    finally:
+        _lin.DEADLINE[0] = old
+
+
 def check_xbuf(ck, it, func, rule="X-BUF", roots=None, skip_funcs=(), strict_slices=False):
     """every index / struct.unpack on a byte buffer is proven in bounds (IndexError / struct.error cannot
     occur).  A slice never raises - Python clamps it - so plain slices are only checked when strict_slices is
@@ -372,7 +420,10 @@ def check_xbuf(ck, it, func, rule="X-BUF", roots=None, skip_funcs=(), strict_sli
         n += 1
         exc = "struct.error" if r["kind"] == "unpack" else ("IndexError" if r["kind"] == "idx" else "silent truncation")
         cons = f"read `{r['text'][:70]}` in {r['func']} stays inside the buffer"
-        st, m = prove(r["facts"], g, max_cases=12 if in_loop(r) else None)
+        st, m = budgeted_prove(r["facts"], g, max_cases=12 if in_loop(r) else None)
+        if st == "budget":
+            ck.assume(rule, func, cons, str(m))
+            continue
         if st == "proved":
             ck.proved(rule, func, cons, f"guards entail {show(g)[:120]}")
         elif st == "refutable":
@@ -405,12 +456,15 @@ def check_xdecl(ck, it, func, root, N, rule="X-DECL", extra_facts=(), skip=lambd
         n += 1
         cons = f"read `{r['text'][:70]}` in {r['func']} ends inside the declared length"
         fs = list(r["facts"]) + list(extra_facts)
-        st, m = prove(fs, g, max_cases=12 if in_loop(r) else None)
+        st, m = budgeted_prove(fs, g, max_cases=12 if in_loop(r) else None)
+        if st == "budget":
+            ck.assume(rule, func, cons, str(m))
+            continue
         if st != "proved":
             # a read through a closed slice cannot reach beyond that slice: it is enough that one enclosing
             # closed slice ends inside the declared length
             for bound in enclosing_bounds(r):
-                st2, m2 = prove(fs, binop("<=", lin_term(bound), N), max_cases=12 if in_loop(r) else None)
+                st2, m2 = budgeted_prove(fs, binop("<=", lin_term(bound), N), max_cases=12 if in_loop(r) else None)
                 if st2 == "proved":
                     st, m, hi = st2, m2, lin_term(bound)
                     break
@@ -646,6 +700,13 @@ def simplify(t, facts, _cache=None):
         return proved(binop("and", binop("and", binop(">=", lo, C(0)), binop(">=", hi, lo)), binop("<=", hi, length(b))))
 
     def f(x):
+        if x.k == "idx" and x.a[0].k in ("slice", "bcat"):
+            # canonical form of an octet seen through slices: the octet of the root buffer (value-preserving
+            # wherever the index is valid, which X-BUF decides separately)
+            p = buffer_pos(x.a[0], linearize(x.a[1]))
+            if p is not None and p[1].is_const() and p[1].c >= 0:
+                return T("idx", p[0], C(p[1].c), ty="int")
+            return x
         if x.k == "slice" and not is_const(x.a[2], None) and linearize(x.a[1]).key() == linearize(x.a[2]).key():
             return C(b"")      # b[k:k] is empty whatever b is
         if x.k == "un" and x.a[0] == "bool" and x.a[1].k == "const":
